@@ -14,7 +14,13 @@ use std::sync::{Arc, Barrier};
 type Lines = BTreeSet<i32>;
 
 /// worker: text on stdin -> JSON {detector: [lines] | "panic"} ; exactly one call per pattern in a fresh process
-pub fn worker_baseline(_args: &[String]) -> i32 {
+pub fn worker_baseline(args: &[String]) -> i32 {
+    // deeply nested files need a deep stack (same size as the monitors' worker threads)
+    let a = args.to_vec();
+    std::thread::Builder::new().stack_size(1 << 30).spawn(move || worker_baseline_inner(&a)).map(|h| h.join().unwrap_or(3)).unwrap_or(3)
+}
+
+fn worker_baseline_inner(_args: &[String]) -> i32 {
     let mut s = String::new();
     std::io::stdin().read_to_string(&mut s).unwrap();
     let mut m = serde_json::Map::new();
@@ -83,7 +89,9 @@ fn build_fileset(ctx: &Ctx, acc: &mut Acc, n_gen: u64) -> FileSet {
         }
     }
     // deeply nested files: a recursion guard or depth counter that leaks must not affect the files analysed afterwards
-    for (n, t) in crate::deep::deep_texts().into_iter().filter(|(n, _)| n.ends_with(":70") || n.ends_with(":150")).take(14) {
+    let all_deep = crate::deep::deep_texts();
+    let wanted = |n: &str| n.ends_with(":70") || (n.ends_with(":150") && (n.starts_with("chain:+") || n.starts_with("blocks") || n.starts_with("ternary"))) || (n.ends_with(":300") && (n.starts_with("chain:+") || n.starts_with("parens") || n.starts_with("calls") || n.starts_with("else-if")));
+    for (n, t) in all_deep.into_iter().filter(|(n, _)| wanted(n)) {
         names.push(format!("deep:{}", n));
         texts.push(t);
     }
@@ -284,7 +292,15 @@ pub fn run(ctx: &Ctx) -> i32 {
         let in_subdir = rng.chance(1, 3);
         let twice = rng.chance(1, 4);
         // the sub-directory may carry a name that project tools treat specially, next to their manifest files
-        let subdir_name = rng.ps(&["inner", "lib", "node_modules", "test", "out", "inner", "script"]);
+        let chain: String = if rng.chance(1, 8) {
+            // ... or sits 45-60 one-letter directories down
+            acc.cov("directory:probe-below-a-chain-of-45-60-directories");
+            (0..rng.range(45, 60)).map(|l| ((b'a' + (l % 26) as u8) as char).to_string()).collect::<Vec<_>>().join("/")
+        } else {
+            String::new()
+        };
+        let plain_name = rng.ps(&["inner", "lib", "node_modules", "test", "out", "inner", "script"]);
+        let subdir_name: &str = if chain.is_empty() { plain_name } else { &chain };
         if in_subdir {
             std::fs::create_dir_all(format!("{}/{}", root, subdir_name)).unwrap();
             if rng.chance(1, 2) {
@@ -396,9 +412,19 @@ pub fn run(ctx: &Ctx) -> i32 {
     if ctx.replay.as_ref().map(|r| r.0 == "concurrent").unwrap_or(true) {
         let fsr = &fs;
         for round in 0..rounds {
-            let t = [2usize, 4, 8, 16, 32][(round % 5) as usize];
+            let mut t = [2usize, 4, 8, 16, 32][(round % 5) as usize];
             let rng0 = Rng::new(ctx.seed, "C15/concurrent", round);
-            let shared: Vec<usize> = (0..rng0.range(1, 3)).map(|_| rng0.below(nfiles)).collect();
+            let mut shared: Vec<usize> = (0..rng0.range(1, 3)).map(|_| rng0.below(nfiles)).collect();
+            // every fifth round: 32 or 64 threads, all of them on deeply nested files (many deep walks in flight at once)
+            if round % 5 == 4 {
+                let deepest: Vec<usize> = (0..nfiles).filter(|i| fs.names[*i].starts_with("deep:") && fs.names[*i].ends_with(":300")).collect();
+                let deep: Vec<usize> = if deepest.is_empty() { (0..nfiles).filter(|i| fs.names[*i].starts_with("deep:")).collect() } else { deepest };
+                if !deep.is_empty() {
+                    shared = (0..2).map(|_| *rng0.pick(&deep)).collect();
+                    t = if round % 10 == 9 { 64 } else { 32 };
+                    acc.cov("concurrent:all-threads-on-deeply-nested-files");
+                }
+            }
             let barrier = Arc::new(Barrier::new(t));
             let accs: std::sync::Mutex<Vec<Acc>> = std::sync::Mutex::new(vec![]);
             std::thread::scope(|s| {
@@ -406,7 +432,7 @@ pub fn run(ctx: &Ctx) -> i32 {
                     let barrier = barrier.clone();
                     let shared = shared.clone();
                     let accs = &accs;
-                    s.spawn(move || {
+                    let _ = std::thread::Builder::new().stack_size(256 << 20).spawn_scoped(s, move || {
                         let rng = Rng::new(ctx.seed, "C15/concurrent-thread", round * 64 + ti as u64);
                         let mut a = Acc::default();
                         a.cur_workload = "concurrent".into();
